@@ -18,6 +18,7 @@ func init() {
 
 type c19State struct {
 	srtt, rttvar float64
+	pktsIn       uint64 // packets taken by the read loop so far (stats counter) at the previous step
 	have         bool
 	ackDlv       []*wChunk // SACK chunks delivered in the current step
 	ackDlvPkts   int
@@ -39,11 +40,23 @@ func (m *wireMon) checkTimersStep(side int) {
 	// ---- Karn + RFC 6298 update
 	srtt, rttvar := accSRTTVar(a)
 	c := &sm.c19
-	if c.have && (srtt != c.srtt || rttvar != c.rttvar) {
+	pin := accPacketsReceived(a)
+	multi := pin-c.pktsIn > 1
+	c.pktsIn = pin
+	if c.have && (srtt != c.srtt || rttvar != c.rttvar) && multi {
+		// a read loop that was kept waiting worked off several packets in this one step: the change is the
+		// composition of several updates and is not judged (nor are the samples it may have used kept apart)
+		m.count("c19.srtt-updates-in-multi-packet-steps-not-judged")
+		sm.rttCands = nil
+	} else if c.have && (srtt != c.srtt || rttvar != c.rttvar) {
 		m.count("c19.srtt-updates")
 		// the update must be the RFC 6298 step for the round trip of one chunk that was on the wire exactly
 		// once and was newly acknowledged by one of the recently delivered SACKs (each sample justifies one update)
-		const window = 24
+		// (the window counts delivered packets; packets delivered but not yet taken by the read loop extend it)
+		window := 24 + sm.dlvTotal - int(pin)
+		if window < 24 {
+			window = 24
+		}
 		keep := sm.rttCands[:0]
 		for _, rc := range sm.rttCands {
 			if rc.pkt > sm.ackPktSeq-window {
